@@ -293,7 +293,10 @@ func planClusterPushdown(opts *Opts, query *sql.Query) (core.FlatRowSource, erro
 func planClusterNonPushdown(opts *Opts, query *sql.Query) (core.FlatRowSource, error) {
 	// Remove group by, having, order by and limit from query
 	sqlString := query.SQL
-	crosstabString := concatForCrosstab(sqlString)
+	crosstabString := ""
+	if query.Crosstab != nil {
+		crosstabString = concatForCrosstab(sqlString)
+	}
 	lowerSQL := strings.ToLower(sqlString)
 	indexOfGroupBy := indexOfClause(lowerSQL, "group by ")
 	indexOfHaving := indexOfClause(lowerSQL, "having ")
@@ -443,11 +446,12 @@ func planAsIfLocal(opts *Opts, sqlString string) (core.FlatRowSource, error) {
 }
 
 func concatForCrosstab(sql string) string {
+	// (not inside string literals, quoted identifiers or subqueries)
 	crosstab := "CROSSTABT"
-	idx := strings.Index(strings.ToUpper(sql), crosstab)
+	idx := indexOfClause(strings.ToLower(sql), "crosstabt(")
 	if idx < 0 {
 		crosstab = "CROSSTAB"
-		idx = strings.Index(strings.ToUpper(sql), crosstab)
+		idx = indexOfClause(strings.ToLower(sql), "crosstab(")
 	}
 	if idx < 0 {
 		return ""
